@@ -10,8 +10,9 @@ CONSTANTS
   Dev_NdKeyStr = TRUE
   Dev_NdValIndex = TRUE
   Dev_CsIndex = TRUE
+  Dev_SizeHint = TRUE
   Emit = FALSE
-  Scen = {"links", "kids", "dest", "names", "img"}
+  Scen = {"links", "kids", "dest", "names", "img", "pages"}
 INVARIANTS PcOK TotalInv
 
 CHECK_DEADLOCK FALSE
